@@ -74,6 +74,14 @@ def library(n_small=2, n_big=3):
                              S("x", "cart", ["a", "b"], ["a2", "b2"]), S("j", "fwd", ["a2", "b2"], ["c"]),
                              S("m", "mul", ["z1", "z2"], ["zz"]), dict(S("ga", "gather", ["c", "zz"], ["out"]), depth=2)],
                   {"i1": [L([4, 5])], "i2": [L([])]}, ["out"], {"scatter-gather", "combinator", "cross-product", "empty-scatter"}))
+    out.append(_d("nested", [S("s1", "scatter", ["in"], ["l1", "z1"]), S("s2", "scatter", ["l1"], ["l2", "z2"]),
+                             S("f", "fwd", ["l2"], ["m2"]), S("g2", "gather", ["m2", "z2"], ["m1"]),
+                             S("g1", "gather", ["m1", "z1"], ["out"])],
+                  {"in": [{"tag": [0], "val": [[1, 2], [3]]}]}, ["out"], {"scatter-gather", "nested-scatter"}))
+    out.append(_d("nestedx", [S("s1", "scatter", ["in"], ["l1", "z1"]), S("s2", "scatter", ["l1"], ["l2", "z2"]),
+                              S("ex", "exec", ["l2"], ["m2"]), S("g2", "gather", ["m2", "z2"], ["m1"]),
+                              S("g1", "gather", ["m1", "z1"], ["out"])],
+                  {"in": [{"tag": [0], "val": [[1, 2], [], [3]]}]}, ["out"], {"scatter-gather", "nested-scatter", "jobs", "empty-scatter"}))
     out.append(_d("sx0g", [S("sc", "scatter", ["in"], ["el", "sz"]), S("ex", "exec", ["el"], ["ex"]),
                            S("ga", "gather", ["ex", "sz"], ["out"])],
                   {"in": [L([])]}, ["out"], {"scatter-gather", "jobs", "empty-scatter", "deploy-lag"}))
